@@ -18,8 +18,8 @@ def sysname(line):
 
 
 def ckpt_kill_leg(ctx):
-    t0 = time.time()
     binp = ctx["build"]({"name": "native", "build": "native"})
+    t0 = time.time()  # the budget covers the workload, not a (re)build of the binary
     rnd = random.Random(ctx["seed"] * 31 + 5)
     budget = ctx["budget"] or (40 if ctx["tier"] == "quick" else 600)
     trials = 10 if ctx["tier"] == "quick" else 80
@@ -29,8 +29,14 @@ def ckpt_kill_leg(ctx):
            "assumptions": ["process kill model (completed syscalls are on disk)"]}
     c = res["counters"]
     seen = set()
+
+    def over_budget():
+        # the budget ends the workload only once the non-vacuity floor is met (a loaded machine
+        # must not turn the leg into 'observed nothing'); hard stop at six times the budget
+        el = time.time() - t0
+        return el > budget and (c.get("kills_injected", 0) >= 20 or el > 6 * budget)
     for trial in range(trials):
-        if time.time() - t0 > budget:
+        if over_budget():
             c["budget_stops"] = c.get("budget_stops", 0) + 1
             break
         seed = rnd.randrange(1 << 40)
@@ -56,7 +62,7 @@ def ckpt_kill_leg(ctx):
             before = sum(1 for l in lines[:b + 1] if sysname(l) == cls)
             inside = sum(1 for l in reg if sysname(l) == cls)
             for k in range(before + 1, before + inside + 1):
-                if time.time() - t0 > budget:
+                if over_budget():
                     break
                 d2 = os.path.join(ctx["scratch"], "c02kk")
                 shutil.rmtree(d2, ignore_errors=True)
